@@ -710,6 +710,36 @@ func genC20(o *Out, rng *rand.Rand, tier string) {
 			return subj6(m)
 		}, "known-codes-held-as-opaque")
 	}
+	// authentication options (RFC 8415 21.11; the library has no type for them): every protocol, and for the reconfigure key
+	// protocol both kinds of authentication information (the key in the clear, a digest), in a message and behind a relay
+	for proto := 0; proto <= 4; proto++ {
+		for _, kind := range []int{1, 2, 0} {
+			if proto != 3 && kind != 1 {
+				continue
+			}
+			pp, kk := proto, kind
+			exhaustive(func(r *rand.Rand) subject {
+				m := &dhcpv6.Message{MessageType: dhcpv6.MessageTypeReply}
+				copy(m.TransactionID[:], randBytes(r, 3))
+				m.AddOption(dhcpv6.OptClientID(&dhcpv6.DUIDLL{HWType: 1, LinkLayerAddr: randBytes(r, 6)}))
+				auth := append([]byte{byte(pp), 1, 0}, randBytes(r, 8)...) // protocol, algorithm, RDM, replay detection
+				auth = append(auth, byte(kk))
+				auth = append(auth, randBytes(r, 16)...)
+				m.AddOption(&dhcpv6.OptionGeneric{OptionCode: dhcpv6.OptionAuth, OptionData: auth})
+				m.AddOption(dhcpv6.OptElapsedTime(0))
+				var d dhcpv6.DHCPv6 = m
+				if r.Intn(2) == 0 {
+					d, _ = dhcpv6.EncapsulateRelay(m, dhcpv6.MessageTypeRelayReply, net.ParseIP("2001:db8::1"), net.ParseIP("fe80::1"))
+				}
+				if r.Intn(2) == 0 {
+					if q, err := dhcpv6.FromBytes(d.ToBytes()); err == nil {
+						return subj6(q)
+					}
+				}
+				return subj6(d)
+			}, "authentication-options")
+		}
+	}
 	// numbers beyond what their wire field can hold, in hand-built values (a program computes a duration and stores it): reading
 	// and printing leave the stored value alone, whatever the encoder makes of it
 	for _, d := range []time.Duration{20 * time.Minute, 655360 * time.Millisecond, 655350 * time.Millisecond, -time.Second, 1 << 33 * time.Second, 1<<32*time.Second + 5*time.Second, -5 * time.Hour, math.MaxInt64} {
